@@ -2,32 +2,33 @@
     and `ConformationContainer.find_group`.  Import-free. -/
 namespace Propka.TopUp
 
-/-- what topping-up reads from an atom: `residue_label` (name, number, chain — no insertion code,
-    no alternate location), the `(chain_id, res_num)` key and the residue name -/
+/-- what topping-up reads from an atom: `residue_label` (name, number, chain, insertion code — no
+    alternate location), the `(chain_id, res_num, icode)` key and the residue name -/
 structure A where
   label : String
   chain : String
   num : Int
+  icode : String
   resName : String
   deriving DecidableEq, Repr
 
-abbrev Names := List ((String × Int) × String)
+abbrev Names := List ((String × Int × String) × String)
 
-def lookupName : Names → String × Int → Option String
+def lookupName : Names → String × Int × String → Option String
   | [], _ => none
   | (k, v) :: rest, key => if k = key then some v else lookupName rest key
 
 /-- `{(a.chain_id, a.res_num): a.res_name for a in atoms}`: the last atom of a key wins -/
-def namesOf (atoms : List A) : Names := atoms.reverse.map fun a => ((a.chain, a.num), a.resName)
+def namesOf (atoms : List A) : Names := atoms.reverse.map fun a => ((a.chain, a.num, a.icode), a.resName)
 
 /-- the loop of `top_up_from_atoms`: returns the copied atoms in order -/
 def copyLoop (labels : List String) : Names → List A → List A
   | _, [] => []
   | names, a :: rest =>
     if labels.contains a.label then copyLoop labels names rest
-    else match lookupName names (a.chain, a.num) with
+    else match lookupName names (a.chain, a.num, a.icode) with
       | some n => if n ≠ a.resName then copyLoop labels names rest else a :: copyLoop labels names rest
-      | none => a :: copyLoop labels (((a.chain, a.num), a.resName) :: names) rest
+      | none => a :: copyLoop labels (((a.chain, a.num, a.icode), a.resName) :: names) rest
 
 /-- `conf.top_up_from_atoms(other_atoms)` -/
 def topUpFrom (mine others : List A) : List A := mine ++ copyLoop (mine.map (·.label)) (namesOf mine) others
